@@ -431,7 +431,7 @@ func checkC05History(c *Case, st *Stats) *Failure {
 				for id := range m.MayRun(fn) {
 					if g := m.Fns[id]; g != nil && g.OkExec < 0 {
 						for _, lf := range g.Leaves {
-							if !lf.Opt && !lf.IsGroup && m.ExpectSingle(g, lf.Key) == nil {
+							if !lf.Opt && !lf.IsGroup && m.NoSource(g, lf.Key) {
 								hole = true
 							}
 						}
